@@ -8,6 +8,7 @@ for every regex table, every matcher type and every label set - in particular la
 lacking any of the labels.
 -/
 import PromqlVerif.Proofs.Matchers
+import PromqlVerif.Eng
 namespace PromqlVerif.C09
 open PromqlVerif
 
@@ -73,6 +74,31 @@ theorem propagate_sound (re : ReTab) (lms rms : List Matcher) (l1 l2 : Labels)
   cases ha : matchAll re lms l1 <;> cases hb : matchAll re rms l2 <;> simp
   · rw [matchAll_filter_of_true re rms _ l2 hb, matchAll_filter_of_true re lms _ l1 ha]
     simp
+
+/-- ... and the optimizer rewrites a binary expression only where that hypothesis is the matching
+rule: no `on`, no label list (so the match key is the whole label set without the name), one-to-one,
+not a comparison. (`on ()` with an empty list matches on no label at all; the pinned tree propagated
+there too - repaired, see `known_findings.jsonl`.) -/
+theorem propagate_only_when_matching_on_all_labels {V : Type} (op : String) (b : Bool) (m : Matching)
+    (l r : Expr V) (h : propBin op b m l r ≠ .bin op b m l r) :
+    m.on = false ∧ m.labels = [] ∧ m.card = .oneToOne ∧ comparisonOps.contains op = false := by
+  unfold propBin at h
+  split at h
+  · split at h
+    · exact absurd rfl h
+    · rename_i hc
+      simp only [Bool.or_eq_true, not_or, Bool.not_eq_true, bne_iff_ne, ne_eq, Decidable.not_not,
+        Bool.not_eq_eq_eq_not, Bool.not_true, Bool.not_eq_true'] at hc
+      obtain ⟨⟨⟨⟨⟨⟨h1, h2⟩, h3⟩, h4⟩, _⟩, _⟩, _⟩ := hc
+      exact ⟨h2, by simpa using h3, h4, h1⟩
+  · exact absurd rfl h
+
+/-- for such a matching the join key of a series is its label set without the metric name -/
+theorem match_key_on_all_labels (m : Matching) (keepName : Bool) (ls : Labels) (h1 : m.on = false)
+    (h2 : m.labels = []) : (engSignature m keepName ls).1 = ls.dropName := by
+  unfold engSignature
+  have : ls.filter (fun _ => true) = ls := List.filter_eq_self.mpr (fun _ _ => rfl)
+  simp [h1, h2, Labels.del, this]
 
 /-- non-vacuity: a usable replacement with a repeated label name and a series that lacks the
 filtered label -/
